@@ -92,7 +92,19 @@ def cases(ctx):
             if steps[prefix]["op"] in ("save_merge", "drop_sel", "expand"):
                 steps[prefix]["op"] = "combos"
         # a parameter first swept over whole numbers and later also at fractional values (a in 1, 2 ... then 0.5, 2.5)
-        if rng.random() < 0.25:
+        narrow = rng.random() < 0.15 and len(steps) >= 2 and not mem_only
+        if narrow:
+            prefix = 0
+            steps[0].update(op="combos", new_session=False)
+            steps[1].update(op="combos", new_session=rng.random() < 0.5, policy=None, a=[rng.choice([300, 70000])], version=steps[0]["version"])
+            # the very first labels arrive as a NARROW numpy type (an int8 array), later ones only fit a wide one (300)
+            for k, st in enumerate(steps):
+                st["a_int8"] = (k == 0)
+                if k > 0 and rng.random() < 0.6 and st["op"] in ("combos", "cases"):
+                    st["a"] = rng.sample(A_VALS + [300, 70000], len(st["a"]))
+                    if st["op"] == "cases":
+                        st["pts"] = list(dict.fromkeys((rng.choice(A_VALS + [300, 70000]), b) for _, b in st["pts"]))
+        if not narrow and rng.random() < 0.25:
             for k, st in enumerate(steps):
                 if k > 0 and rng.random() < 0.6:
                     st["a"] = rng.sample(A_VALS + [0.5, 2.5], len(st["a"]))
@@ -341,6 +353,9 @@ def run_case(ctx, case):
                     h.harvest_combos(combos, overwrite=True, sync=sync, verbosity=0)
                 elif op in ("combos", "ellipsis"):
                     combos = {"a": list(st["a"]), "b": list(st["b"])}
+                    if st.get("a_int8") and op == "combos":
+                        combos["a"] = np.array(st["a"], dtype="int8")
+                        ctx.count("first_labels_given_in_a_narrow_type")
                     if expanded:
                         combos["c"] = list(st["c"])
                     pts = [dict(zip(combos, v)) for v in __import__("itertools").product(*combos.values())]
